@@ -132,6 +132,15 @@ HISTORIES = {
         ("move", "A", [[4, 4], [1, 1]], "b", False),
         ("noop", "B"), ("move", "B", [[1, S]], "inbox", True), ("noop", "A"),
     ],
+    # SPECIAL-USE mailboxes that were deleted but are kept as placeholders (subscribed / with inferiors): a restart
+    # may create a MISSING special-use mailbox again, it must not bring a deleted one back
+    "special_use_placeholders_across_restart": [
+        ("nssubscribe", "A", "Junk", True), ("nsdelete", "A", "Junk", True),
+        ("nscreate", "A", "Archive/old", True), ("nsdelete", "A", "Archive", True),
+        ("nsdelete", "A", "Drafts", True),
+        ("restart",), ("select", "A", "Junk"), ("select", "A", "Archive"), ("select", "A", "Drafts"),
+        ("append", "A", "Archive/old", [], 0), ("restart",), ("select", "A", "Archive/old"),
+    ],
     # RENAME INBOX when the folder's file numbers have a gap (a middle message was expunged, no pack yet)
     "rename_inbox_with_gap": [
         ("append", "A", "inbox", ["Flagged"], 946684800), ("append", "A", "inbox", ["Seen"], 0),
